@@ -11,6 +11,6 @@ for p in C01 C02 C03 C04 C05 C06 C07 C08 C09 C10 C11 C12 C13 C14 C15 C16 C17 C18
   /verif/bin/fvcheck -p $p -tier quick -repo /repo -verif "$EV" 2>&1 | grep -E "^FAIL|^panic:|^goroutine |checker error" | sed "s/^/$p: /" >> "$OUT"
 done
 rm -rf "$EV"
-git -C /repo checkout -- .
+git -C /repo apply -R "$P" || git -C /repo checkout -- .
 n=$(grep -c . "$OUT"); s=$(grep -v "C0[0-9]\.z\|C1[0-9]\.z\|C01\.n\|C04\.lex\|C17\.e\|C01\.hw" "$OUT" | grep -c .)
 echo "fails=$n semantic=$s props=$(cut -d: -f1 "$OUT" | sort -u | tr '\n' ' ')"
